@@ -51,6 +51,22 @@ def families(tier, rng):
             i += 1
             sch = LOGIN + [["gate", 1, None, j], ["ongate", [["send", 1, "ABOR"], ["release", 1]], "continue"]] + x + FOLLOW[fu] + FOLLOW["retr"]
             fam.append(("gate:%s" % verb, sch))
+    # (iv) loop-iteration-granular races: ABOR delivered a..b event-loop iterations around the end of the data
+    rng_a = range(0, 7) if tier == "quick" else range(0, 10)
+    for verb, arg, data in (("STOR", "n1", [1, 2, 3]), ("RETR", "f", None), ("LIST", "", None), ("MLSD", "d", None), ("APPE", "f", [7])):
+        for a in rng_a:
+            for b in (0, 1, 2, 3, 5):
+                x = LOGIN + [["send", 1, "PASV"], ["send", 1, verb + " " + arg], ["dconnect", 1]]
+                if data:
+                    x.append(["dsend", 1, data])
+                x += [["nq", ["deof", 1]], ["iter", a], ["nq", ["send", 1, "ABOR"]], ["iter", b], ["tick", 0], ["send", 1, "PWD"]] + FOLLOW["retr"]
+                fam.append(("race-end:%s" % verb, x))
+        for a in rng_a:
+            x = LOGIN + [["send", 1, "PASV"], ["dconnect", 1], ["nq", ["send", 1, verb + " " + arg]], ["iter", a], ["nq", ["send", 1, "ABOR"]], ["tick", 0]]
+            if data:
+                x.append(["dsend", 1, data])
+            x += [["deof", 1], ["send", 1, "PWD"]] + FOLLOW["retr"]
+            fam.append(("race-start:%s" % verb, x))
     # (iii) nothing to abort
     fam.append(("none", LOGIN + [["send", 1, "ABOR"], ["send", 1, "ABOR"]] + FOLLOW["retr"]))
     fam.append(("none", [["connect", 1], ["send", 1, "ABOR"], ["send", 1, "USER u1"], ["send", 1, "ABOR"], ["send", 1, "PASS pw1"], ["send", 1, "ABOR"]]))
